@@ -449,6 +449,15 @@ def find_class_cases():
     for name in ("UserAgent", "FCNAgent", "NoSuchClass"):
         for extra in ("user", "shadow", "both", "twice", "homonyms"):
             yield {"name": name, "extra": extra, "via": "runner"}
+    # every class the package exports under some name resolves (to itself) - however many of the searched namespaces export it
+    import inspect
+    import pams, pams.agents, pams.events, pams.logs
+    seen = set()
+    for mod in (pams, pams.agents, pams.events, pams.logs):
+        for nme, obj in sorted(vars(mod).items()):
+            if inspect.isclass(obj) and not nme.startswith("_") and getattr(obj, "__module__", "").startswith("pams") and obj.__name__ == nme and nme not in seen:
+                seen.add(nme)
+                yield {"name": nme, "extra": "none"}
 
 
 CHECKS["find_class"] = (find_class_cases, check_find_class)
